@@ -398,6 +398,23 @@ def check_byte_codecs(ctx, P, rule="E9.bytes"):
     return ws, rs
 
 
+def check_reader_totality(ctx, P, rule="E9.reader-total"):
+    """Hand-written byte readers of tagged enums accept every tag (see spec.check_reader_totality)."""
+    from . import spec as SP
+
+    ws, rs = byte_codec_fns(P)
+    tag_adts = list(P.scheme_adts()) + ["Bls12381"]
+    n = 0
+    for name, f in sorted(rs.items()):
+        a = P.adts.get(name)
+        if not a or a["kind"] != "enum":
+            continue
+        if not SP.switch_roots(P, f, tag_adts, True):
+            continue
+        n += SP.check_reader_totality(ctx, rule, P, f, name, tag_adts)
+    ctx.floor(rule, "(hand-written tagged reader, tag) pairs", n, 5)
+
+
 def check_delegations(ctx, P, rule="E9.delegate"):
     """The macro-derived container conversions delegate to the primary pair without touching the bytes."""
     n = 0
@@ -521,6 +538,40 @@ def check_endianness(ctx, P, rule="E9.endian"):
                 has_in = any(x.op == "param" and x.a[1] == "input" for x in subterms(arg))
                 ok = ok and has_in and (n % 2 == 1) == want_rev
         ctx.ob(rule, fk, ok, "%s %s the field's little-endian repr (whole-buffer reversals on the path: %d)" % (fk, "reverses" if want_rev else "does not reverse", n), where=where(f))
+
+
+def check_endian_delegation(ctx, P, rule="E9.endian-delegation"):
+    """Byte-order agreement along delegation: a function named *_be_bytes / *_le_bytes that hands its work to a crate
+    function named for a byte order hands it to the same order - or to the other order with an odd number of
+    whole-buffer reversals in between.  (All 20 such edges of the crate agree; a copy-pasted arm calling the other
+    order silently re-interprets the scalar.)"""
+    import re as _re
+
+    rx = _re.compile(r"(?:^|_)(be|le)_bytes$")
+    n = 0
+    for f in sorted(P.fns.values(), key=lambda g: g.key):
+        base = f
+        k = 0
+        while base is not None and base.kind == "Closure" and k < 4:
+            base = P.fns.get(base.j.get("parent_key"))
+            k += 1
+        if base is None:
+            continue
+        m = rx.search(base.name or "")
+        if not m:
+            continue
+        ev = evaluate(f)
+        nrev = sum(1 for s in ev.sites.values() if s.callee[0] in ("slice::<impl [T]>::reverse", "Iterator::rev"))
+        for bb, t in f.calls():
+            c = t.get("callee") or {}
+            m2 = rx.search(c.get("name") or "")
+            if not m2 or not c.get("local"):
+                continue
+            n += 1
+            same = m.group(1) == m2.group(1)
+            ok = (nrev % 2 == 0) if same else (nrev % 2 == 1)
+            ctx.ob(rule, "%s->%s#%d" % (base.key, c.get("key") or c.get("path"), sum(1 for o in ctx.obligations if o["key"].startswith("%s%s/%s->%s#" % (ctx.key_prefix, rule, base.key, c.get("key") or c.get("path"))))), ok, "%s (%s-endian) delegates to %s (%s-endian) with %d whole-buffer reversal(s)" % (base.key, m.group(1), c.get("key") or c.get("path"), m2.group(1), nrev), where=where(f, bb))
+    ctx.floor(rule, "byte-order delegation edges", n, 12)
 
 
 def check_layouts(ctx, P, rule="E9.layout"):
